@@ -124,3 +124,250 @@ Proof.
               | (erewrite run_ok1; [ | congruence | unfold state_machine; rewrite HS; unf_flow; try pk HT; reflexivity]); run_go HT ] ].
   all: unfold flow_err_site; auto.
 Qed.
+
+(* the same right behind the opening bracket (the First* states still have the opener [t0] in front of them) *)
+Theorem open_flow_first_rejected p (seq : bool) t0 sp tk r :
+  p_state p = (if seq then SFlowSequenceFirstEntry else SFlowMappingFirstKey) ->
+  toks_ahead p = t0 :: (sp, tk) :: r -> bad_in_flow seq tk = true ->
+  state_machine p = Parser.Err (PErr 11 (sp_start sp)).
+Proof.
+  intros HS HT HB. unfold state_machine. rewrite HS.
+  destruct seq; destruct tk; cbn in HB; try discriminate; unf_flow; pk HT; reflexivity.
+Qed.
+
+(* ------------------------------------------------------------------------------------------------ *)
+(* R3 — a second root node / a directive without document end marker                                  *)
+(* ------------------------------------------------------------------------------------------------ *)
+Definition is_directive_tok (tk : tok) : bool :=
+  match tk with TVersionDirective _ _ | TTagDirective _ _ => true | _ => false end.
+
+(* tokens that can only belong to further content of the same document *)
+Definition content_tok (tk : tok) : bool :=
+  match tk with
+  | TDocumentEnd | TDocumentStart | TStreamEnd | TVersionDirective _ _ | TTagDirective _ _ => false
+  | _ => true
+  end.
+
+Theorem second_root_rejected p sp tk r :
+  p_state p = SDocumentEnd -> toks_ahead p = (sp, tk) :: r -> content_tok tk = true ->
+  exists sp' p', state_machine p = Parser.Ok ((EDocumentEnd, sp'), p')
+                 /\ state_machine p' = Parser.Err (PErr 3 (sp_start sp)).
+Proof.
+  intros HS HT HC. unfold state_machine at 1. rewrite HS. unfold document_end. pk HT.
+  destruct tk; cbn in HC; try discriminate; cbn;
+    destruct (p_keep_tags p); cbn; (do 2 eexists; split; [reflexivity|]); cbn; reflexivity.
+Qed.
+
+Theorem second_root_run_rejected p sp tk r fuel se acc :
+  p_state p = SDocumentEnd -> toks_ahead p = (sp, tk) :: r -> content_tok tk = true ->
+  run_end (2 + fuel) p se acc = PParseErr 3 (sp_start sp).
+Proof.
+  intros HS HT HC. destruct (second_root_rejected p sp tk r HS HT HC) as (sp' & p' & H1 & H2).
+  cbn [Nat.add]. erewrite run_ok1; [ | congruence | exact H1 ].
+  apply run_err1; [ | exact H2 ].
+  intros HE. unfold state_machine in H2. rewrite HE in H2. discriminate.
+Qed.
+
+Theorem directive_without_document_end_rejected p sp tk r :
+  p_state p = SDocumentEnd -> toks_ahead p = (sp, tk) :: r -> is_directive_tok tk = true ->
+  state_machine p = Parser.Err (PErr 4 (sp_start sp)).
+Proof.
+  intros HS HT HC. unfold state_machine. rewrite HS. unfold document_end. pk HT.
+  destruct tk; cbn in HC; try discriminate; cbn; destruct (p_keep_tags p); reflexivity.
+Qed.
+
+(* ------------------------------------------------------------------------------------------------ *)
+(* R4 — alias without anchor                                                                          *)
+(* ------------------------------------------------------------------------------------------------ *)
+Theorem alias_without_anchor_rejected p sp n r b i :
+  toks_ahead p = (sp, TAlias n) :: r -> assoc n (p_anchors p) = None -> p_states p <> [] ->
+  parse_node p b i = Parser.Err (PErr 10 (sp_start sp)).
+Proof.
+  intros HT HA HN. unfold parse_node. pk HT. unfold pop_state. cbn.
+  destruct (p_states p) as [|s stk]; [congruence|]. cbn. rewrite HA. reflexivity.
+Qed.
+
+(* at the root of a document, implicit or explicit *)
+Theorem root_alias_without_anchor_rejected p sp n r :
+  (p_state p = SBlockNode \/ p_state p = SDocumentContent) ->
+  toks_ahead p = (sp, TAlias n) :: r -> assoc n (p_anchors p) = None -> p_states p <> [] ->
+  state_machine p = Parser.Err (PErr 10 (sp_start sp)).
+Proof.
+  intros HS HT HA HN. unfold state_machine.
+  destruct HS as [HS|HS]; rewrite HS.
+  - eapply alias_without_anchor_rejected; eassumption.
+  - unfold document_content. rewrite (peek_norm _ _ _ HT). cbn beta iota.
+    eapply alias_without_anchor_rejected; cbn; [reflexivity | assumption | assumption].
+Qed.
+
+Lemma assoc_nil {B} n : @assoc B n [] = None.
+Proof. reflexivity. Qed.
+
+(* An alias right at the start of the next document refers to nothing, whatever was anchored before:
+   [document_end] empties the table (DocReset), "--- *n" and "*n" (after "...") both fail with site 10. *)
+Theorem alias_to_previous_document_rejected p ev p' :
+  document_end p = Parser.Ok (ev, p') ->
+  (forall sp0 sp n r, toks_ahead p' = (sp0, TDocumentStart) :: (sp, TAlias n) :: r ->
+     exists ev2 p2, state_machine p' = Parser.Ok (ev2, p2) /\ state_machine p2 = Parser.Err (PErr 10 (sp_start sp)))
+  /\ (forall sp n r, p_state p' = SImplicitDocumentStart -> toks_ahead p' = (sp, TAlias n) :: r ->
+     exists ev2 p2, state_machine p' = Parser.Ok (ev2, p2) /\ state_machine p2 = Parser.Err (PErr 10 (sp_start sp))).
+Proof.
+  intros HD. destruct (document_end_resets _ _ _ HD) as [(HA & _) HS].
+  split.
+  - intros sp0 sp n r HT.
+    assert (G : forall impl, exists ev2 p2, document_start p' impl = Parser.Ok (ev2, p2)
+                                       /\ state_machine p2 = Parser.Err (PErr 10 (sp_start sp))).
+    { intros impl. unfold document_start. cbn [skip_document_ends]. pk HT.
+      unfold explicit_document_start. cbn. do 2 eexists. split; [reflexivity|].
+      cbn. rewrite HA. reflexivity. }
+    unfold state_machine at 1. destruct HS as [HS|HS]; rewrite HS; apply G.
+  - intros sp n r HS' HT. unfold state_machine at 1. rewrite HS'.
+    unfold document_start. cbn [skip_document_ends]. pk HT.
+    do 2 eexists. split; [reflexivity|]. cbn. rewrite HA. reflexivity.
+Qed.
+
+(* ------------------------------------------------------------------------------------------------ *)
+(* R5 — named tag handle that was never declared                                                      *)
+(* ------------------------------------------------------------------------------------------------ *)
+Theorem undeclared_handle_rejected p m h s :
+  is_named_handle h = true -> h <> [bang; bang] -> assoc h (p_tags p) = None ->
+  resolve_tag p m h s = Parser.Err (PErr 20 m).
+Proof.
+  intros HN HB HA. unfold resolve_tag.
+  assert (E : str_eqb h [bang; bang] = false).
+  { unfold str_eqb. destruct (list_eq_dec N.eq_dec h [bang; bang]); [contradiction|reflexivity]. }
+  rewrite E. destruct h as [|a h']; [discriminate|]. cbn [andb]. rewrite HA, HN. reflexivity.
+Qed.
+
+Theorem node_with_undeclared_handle_rejected p sp h s r b i :
+  toks_ahead p = (sp, TTag h s) :: r ->
+  is_named_handle h = true -> h <> [bang; bang] -> assoc h (p_tags p) = None ->
+  parse_node p b i = Parser.Err (PErr 20 (sp_start sp)).
+Proof.
+  intros HT HN HB HA. unfold parse_node. pk HT.
+  rewrite undeclared_handle_rejected; [reflexivity | assumption | assumption | cbn; assumption].
+Qed.
+
+Theorem anchored_node_with_undeclared_handle_rejected p sp0 a sp h s r b i :
+  toks_ahead p = (sp0, TAnchor a) :: (sp, TTag h s) :: r ->
+  is_named_handle h = true -> h <> [bang; bang] -> assoc h (p_tags p) = None ->
+  parse_node p b i = Parser.Err (PErr 20 (sp_start sp0)).
+Proof.
+  intros HT HN HB HA. unfold parse_node. pk HT.
+  rewrite undeclared_handle_rejected; [reflexivity | assumption | assumption | cbn; assumption].
+Qed.
+
+(* ------------------------------------------------------------------------------------------------ *)
+(* R6 — repeated %YAML directive                                                                       *)
+(* ------------------------------------------------------------------------------------------------ *)
+Theorem version_after_version_rejected fuel p sp a b r tags :
+  toks_ahead p = (sp, TVersionDirective a b) :: r ->
+  process_directives (S fuel) p true tags = Parser.Err (PErr 2 (sp_start sp)).
+Proof. intros HT. cbn [process_directives]. pk HT. reflexivity. Qed.
+
+Theorem repeated_version_directive_rejected fuel p sp1 a b sp2 c d r tags :
+  toks_ahead p = (sp1, TVersionDirective a b) :: (sp2, TVersionDirective c d) :: r ->
+  process_directives (S (S fuel)) p false tags = Parser.Err (PErr 2 (sp_start sp2)).
+Proof. intros HT. cbn [process_directives]. pk HT. reflexivity. Qed.
+
+(* ... also with %TAG directives between the two (or the error is the duplicate-handle one, site 21) *)
+Lemma skip_ahead p t r : toks_ahead p = t :: r -> toks_ahead (skip (set_tok p r (Some t))) = r.
+Proof. reflexivity. Qed.
+
+Theorem version_seen_then_version_rejected ds : forall fuel p tags sp a b r,
+  Forall (fun t => match snd t with TTagDirective _ _ => True | _ => False end) ds ->
+  toks_ahead p = ds ++ (sp, TVersionDirective a b) :: r -> (length ds < fuel)%nat ->
+  match process_directives fuel p true tags with
+  | Parser.Err (PErr 2 m) => m = sp_start sp
+  | Parser.Err (PErr 21 _) => True
+  | _ => False
+  end.
+Proof.
+  induction ds as [|[spd d] ds IH]; intros fuel p tags sp a b r HF HT HL.
+  - destruct fuel as [|fuel]; [cbn in HL; lia|]. cbn [app] in HT.
+    rewrite (version_after_version_rejected fuel p sp a b r tags HT). reflexivity.
+  - destruct fuel as [|fuel]; [cbn in HL; lia|]. cbn [app] in HT.
+    inversion HF as [|x l Hd HF']; subst. cbn [snd] in Hd. destruct d; try contradiction.
+    cbn [process_directives]. rewrite (peek_norm _ _ _ HT). cbn beta iota.
+    destruct (negb (is_empty_str h) && has_key h tags); [exact I|].
+    eapply IH; [exact HF' | reflexivity | cbn in HL; lia].
+Qed.
+
+Lemma toks_ahead_length p : (length (toks_ahead p) < S (S (length (p_toks p))))%nat.
+Proof. unfold toks_ahead. destruct (p_token p); cbn; lia. Qed.
+
+(* at the state-machine level: a stream/document start that meets "%YAML .. %YAML .." *)
+Theorem document_with_two_versions_rejected p sp1 a b sp2 c d r :
+  (p_state p = SImplicitDocumentStart \/ p_state p = SDocumentStart) ->
+  toks_ahead p = (sp1, TVersionDirective a b) :: (sp2, TVersionDirective c d) :: r ->
+  state_machine p = Parser.Err (PErr 2 (sp_start sp2)).
+Proof.
+  intros HS HT. unfold state_machine.
+  assert (G : forall impl, document_start p impl = Parser.Err (PErr 2 (sp_start sp2))).
+  { intros impl. unfold document_start. cbn [skip_document_ends]. pk HT.
+    unfold explicit_document_start. cbn. reflexivity. }
+  destruct HS as [HS|HS]; rewrite HS; apply G.
+Qed.
+
+(* ------------------------------------------------------------------------------------------------ *)
+(* R7 — directives that are not followed by '---'                                                     *)
+(* ------------------------------------------------------------------------------------------------ *)
+Lemma process_directives_run ds : forall fuel p vs tags t r,
+  Forall (fun t => is_directive_tok (snd t) = true) ds -> is_directive_tok (snd t) = false ->
+  toks_ahead p = ds ++ t :: r -> (length ds < fuel)%nat ->
+  match process_directives fuel p vs tags with
+  | Parser.Ok q => toks_ahead q = t :: r
+  | Parser.Err (PErr 2 _) | Parser.Err (PErr 21 _) => True
+  | _ => False
+  end.
+Proof.
+  induction ds as [|[spd d] ds IH]; intros fuel p vs tags t r HF Ht HT HL.
+  - destruct fuel as [|fuel]; [cbn in HL; lia|]. cbn [app] in HT.
+    cbn [process_directives]. rewrite (peek_norm _ _ _ HT). destruct t as [sp tk]. cbn [snd] in Ht.
+    destruct tk; cbn in Ht; try discriminate; reflexivity.
+  - destruct fuel as [|fuel]; [cbn in HL; lia|]. cbn [app] in HT.
+    inversion HF as [|x l Hd HF']; subst. cbn [snd] in Hd.
+    cbn [process_directives]. rewrite (peek_norm _ _ _ HT).
+    destruct d; cbn in Hd; try discriminate; cbn beta iota.
+    + destruct vs; [exact I|]. eapply IH; [exact HF' | exact Ht | reflexivity | cbn in HL; lia].
+    + destruct (negb (is_empty_str h) && has_key h tags); [exact I|].
+      eapply IH; [exact HF' | exact Ht | reflexivity | cbn in HL; lia].
+Qed.
+
+Theorem directives_without_document_start_rejected p ds sp tk r :
+  Forall (fun t => is_directive_tok (snd t) = true) ds ->
+  is_directive_tok tk = false -> tk <> TDocumentStart ->
+  toks_ahead p = ds ++ (sp, tk) :: r ->
+  match explicit_document_start p with
+  | Parser.Err (PErr 3 m) => m = sp_start sp       (* did not find expected <document start> *)
+  | Parser.Err (PErr 2 _) | Parser.Err (PErr 21 _) => True   (* or a directive of the run is itself in error *)
+  | _ => False
+  end.
+Proof.
+  intros HF Hd Hn HT. unfold explicit_document_start.
+  assert (HL : (length ds < S (S (length (p_toks p))))%nat).
+  { pose proof (toks_ahead_length p) as H. rewrite HT, app_length in H. cbn in H. lia. }
+  pose proof (process_directives_run ds _ p false [] (sp, tk) r HF Hd HT HL) as HP.
+  destruct (process_directives _ p false []) as [q|e|n]; [|exact HP|contradiction].
+  rewrite (peek_norm _ _ _ HP). destruct tk; try reflexivity. congruence.
+Qed.
+
+(* in particular: directives and then the end of the stream *)
+Corollary directives_at_end_of_stream_rejected p ds sp r :
+  Forall (fun t => is_directive_tok (snd t) = true) ds ->
+  toks_ahead p = ds ++ (sp, TStreamEnd) :: r ->
+  match explicit_document_start p with
+  | Parser.Err (PErr 3 m) => m = sp_start sp
+  | Parser.Err (PErr 2 _) | Parser.Err (PErr 21 _) => True
+  | _ => False
+  end.
+Proof. intros HF HT. apply (directives_without_document_start_rejected p ds sp TStreamEnd r); auto. discriminate. Qed.
+
+(* and the state machine does call [explicit_document_start] when a document starts with a directive *)
+Theorem document_start_with_directive p sp tk r impl :
+  is_directive_tok tk = true -> toks_ahead p = (sp, tk) :: r ->
+  exists q, toks_ahead q = (sp, tk) :: r /\ document_start p impl = explicit_document_start q.
+Proof.
+  intros Hd HT. unfold document_start. cbn [skip_document_ends]. pk HT.
+  destruct tk; cbn in Hd; try discriminate; eexists; (split; [|reflexivity]); reflexivity.
+Qed.
